@@ -1,6 +1,5 @@
 // ===================== spec =====================
 pub open spec fn AWS4() -> Seq<u8> { seq![0x41u8, 0x57u8, 0x53u8, 0x34u8] }
-pub open spec fn YMD() -> Seq<char> { seq!['%', 'Y', '%', 'm', '%', 'd'] }
 pub open spec fn AWS4_REQUEST_BYTES() -> Seq<u8> { seq![0x61u8, 0x77u8, 0x73u8, 0x34u8, 0x5fu8, 0x72u8, 0x65u8, 0x71u8, 0x75u8, 0x65u8, 0x73u8, 0x74u8] }
 /// The SigV4 chain, taken from the property statement (C06)
 pub open spec fn spec_kdate(secret: Seq<u8>, d: NaiveDate) -> Seq<u8> { spec_hmac(AWS4() + secret, str_bytes(strftime_date(d, YMD()))) }
